@@ -232,6 +232,23 @@ theorem dropCheckout_dials (s : State) (r : ReqId) : (dropCheckout s r).dialCoun
       · show (dropRx (cancelIfOwner (returnUnused (takeConn s r c) c) c) r).dialCount = _
         rw [dropRx_dials, cancelIfOwner_dials, h1]
 
+theorem abortAll_dials : ∀ (fuel : Nat) (s : State), (abortAll fuel s).dialCount = s.dialCount
+  | 0, _ => rfl
+  | fuel + 1, s => by
+    simp only [abortAll]
+    split
+    · rfl
+    · rw [abortAll_dials fuel]
+      unfold abortTask
+      split
+      · rfl
+      · rfl
+      · split
+        · rfl
+        · simp only []
+          show (cancelIfOwner _ _).dialCount = _
+          rw [cancelIfOwner_dials]; rfl
+
 /-- **C04 (cancelling causes no dial).** Cancelling a request – before its first poll, while it waits,
     while it dials, or after it was given a connection –, a response arriving, a connection becoming
     ready or being closed by the peer, the outcome of a dial, the passing of time and the issue of a
@@ -301,6 +318,7 @@ theorem C04_only_polls_dial (s : State) (op : Op) (hp : ∀ r, op ≠ .poll r) (
     · rfl
   | tick ms => rfl
   | mark => rfl
+  | shutdown => exact abortAll_dials _ s
 
 /-! ## Reachable-state theorem (from the invariant of `Lemmas/PoolMarker.lean`) -/
 
